@@ -265,6 +265,20 @@ func (c *compiler) compileType(y *Type, parent Leafable, isUnion bool) error {
 				c.inheritFromTypedef(parent, tdef)
 			}
 		}
+		if y.format.Single() == val.FmtLeafRef && !strings.HasPrefix(y.path, "/") {
+			if _, isTypedef := parent.(*Typedef); !isTypedef {
+				// a relative path leads somewhere else for every copy of the leaf
+				target, hasType := Find(parent, leafrefSchemaPath(y.path)).(HasType)
+				if !hasType {
+					return fmt.Errorf("%s - %s path cannot be resolved", SchemaPath(parent), y.ident)
+				}
+				if target.Type() != y.delegate {
+					copy := *y
+					copy.delegate = target.Type()
+					parent.setType(&copy)
+				}
+			}
+		}
 		return nil
 	}
 	var builtinType bool
